@@ -10,7 +10,8 @@ import (
 )
 
 func init() {
-	Register(&Scenario{Prop: "C06", Name: "kv-lww", Run: scenC06, SoftParks: true, Weight: 1})
+	Register(&Scenario{Prop: "C06", Name: "kv-lww", Run: scenC06, SoftParks: true, Weight: 1,
+		Rule: "1-3 replicas of a key-value store; 3-14 (thorough 3-40) Put/Delete on 1-5 keys (repeated keys, deletes of absent keys, re-puts, empty and binary values), one operation in five a burst of 2-3 concurrent local writers stepped through the write path or free-running (the client of one of them may give up mid-write: its context is cancelled while it sits between two steps), with replication under the swarm faults, failing fetches / gap-fill and kernel stalls; at every quiescent step each replica's Get/All must equal the last-writer-wins replay of its own log by the independent model, and the log order must respect the causal past recorded by the kernel; non-trivial = >=3 writes and (with several replicas) >=1 replicated entry"})
 }
 
 var c06Keys = []string{"a", "b", "ключ", "k k", "z/1"}
@@ -68,14 +69,25 @@ func scenC06(k *K) {
 			if s == nil {
 				continue
 			}
+			if k.opsInFlightOn(i) > 0 {
+				continue // a write that has not returned may be in the log and not yet in the view
+			}
 			checkKVReplica(k, i, s.(iface.KeyValueStore), where)
 		}
 		c.CheckCausalOrder("C06")
 	}
 	k.Invariant = func() { check("step") }
 	overrides := 0
+	c.BurstCancel = k.C.Chance(1, 2)
 	for i := 0; i < nops; i++ {
 		node := k.C.Intn(n)
+		if k.C.Chance(1, 5) {
+			// concurrent local writers; the client of one of them may give up mid-write
+			c.WriteBurst(node, k.C.Range(2, 3), k.C.Chance(1, 2))
+			k.Steps(k.C.Intn(6))
+			check("after-burst")
+			continue
+		}
 		key := c06Keys[k.C.Intn(nkeys)]
 		kv := c.Stores[node].(iface.KeyValueStore)
 		if k.C.Chance(1, 4) {
